@@ -95,6 +95,41 @@ EVAL_TESTV_LOOP = (
     "            (testv, datav, new_length) = test_and_write_vectors[sharenum]\n" + TESTV_BRANCHES +
     "        return True\n\n    def _evaluate_read_vectors")
 
+HTTP = "src/allmydata/storage/http_server.py"
+HTTP_TRY = ("        try:\n"
+            "            success, read_data = self._storage_server.slot_testv_and_readv_and_writev(\n")
+HTTP_TW_ARG = ("                {\n"
+               "                    k: (\n"
+               "                        [\n"
+               "                            (d[\"offset\"], d[\"size\"], b\"eq\", d[\"specimen\"])\n"
+               "                            for d in v[\"test\"]\n"
+               "                        ],\n"
+               "                        [(d[\"offset\"], d[\"data\"]) for d in v[\"write\"]],\n"
+               "                        v[\"new-length\"],\n"
+               "                    )\n"
+               "                    for (k, v) in rtw_request[\"test-write-vectors\"].items()\n"
+               "                },\n")
+HTTP_TEST_ELT = "(d[\"offset\"], d[\"size\"], b\"eq\", d[\"specimen\"])"
+FOOLSCAP_RTW_ARGS = "            secrets,\n            test_and_write_vectors,\n            read_vector,\n            renew_leases=True,\n        )"
+
+
+def _http_tw_hoisted(size):
+    """The handler's test-and-write vectors built by statement loops into a local, before the call."""
+    return ("        tw_vectors = {}\n"
+            "        for (k, v) in rtw_request[\"test-write-vectors\"].items():\n"
+            "            tests = []\n"
+            "            for d in v[\"test\"]:\n"
+            "                tests.append((d[\"offset\"], %s, b\"eq\", d[\"specimen\"]))\n"
+            "            writes = [(d[\"offset\"], d[\"data\"]) for d in v[\"write\"]]\n"
+            "            tw_vectors[k] = (tests, writes, v[\"new-length\"])\n" % size) + HTTP_TRY
+
+
+CCS_CHECK = ("        if new_container_size > self.MAX_SIZE:\n"
+             "            raise DataTooLargeError()\n"
+             "        old_extra_lease_offset = self._read_extra_lease_offset(f)\n"
+             "        new_extra_lease_offset = self.DATA_OFFSET + new_container_size\n")
+EARLY_TEST = "                if offset + len(data) > MutableShareFile.MAX_SIZE:\n"
+
 MUTANTS = [
     # ---- C24.1 guarded writes
     M("write-guard-always-true", SRV, "        if testv_is_good:\n            # now apply the write vectors",
@@ -336,6 +371,58 @@ MUTANTS = [
     # ---- C24.3 every collected share is read (gap review: the per-iteration check was vacuous)
     M("read-stage-skips-empty-shares", SRV, "            read_data[sharenum] = share.readv(read_vector)\n",
       "            if not share.get_length():\n                continue\n            read_data[sharenum] = share.readv(read_vector)\n", "C24.3"),
+    # ---- C24.11 (adopted C23.9) the test stage is given the test vectors the client sent
+    M("http-test-length-from-specimen", HTTP, HTTP_TEST_ELT, "(d[\"offset\"], len(d[\"specimen\"]), b\"eq\", d[\"specimen\"])", "C24.11",
+      note="seeded C24-E: (0, 1, b'') - 'the share must not exist' - passes on an existing share and the writes are applied"),
+    M("http-test-length-from-specimen-in-loop", HTTP, HTTP_TW_ARG, "                tw_vectors,\n", "C24.11",
+      edits=[(HTTP, HTTP_TRY, _http_tw_hoisted("len(d[\"specimen\"])"))],
+      note="same effect, the vectors rebuilt by statement loops"),
+    M("http-only-first-test-forwarded", HTTP, "                            for d in v[\"test\"]\n", "                            for d in v[\"test\"][:1]\n", "C24.11",
+      note="a request whose second test fails is applied"),
+    M("foolscap-tests-dropped-for-shares-without-writes", SRV, FOOLSCAP_RTW_ARGS,
+      "            secrets,\n            {k: v for (k, v) in test_and_write_vectors.items() if v[1]},\n            read_vector,\n"
+      "            renew_leases=True,\n        )", "C24.11",
+      note="a share that is only tested no longer takes part in the verdict: the other shares are written although its test fails"),
+    M("foolscap-test-vectors-emptied", SRV, FOOLSCAP_RTW_ARGS,
+      "            secrets,\n            {k: ([], v[1], v[2]) for (k, v) in test_and_write_vectors.items()},\n            read_vector,\n"
+      "            renew_leases=True,\n        )", "C24.11"),
+    M("benign-http-vectors-built-in-loops", HTTP, HTTP_TW_ARG, "                tw_vectors,\n", None,
+      edits=[(HTTP, HTTP_TRY, _http_tw_hoisted("d[\"size\"]"))]),
+    M("benign-foolscap-keyword-arguments", SRV, FOOLSCAP_RTW_ARGS,
+      "            secrets,\n            read_vector=read_vector,\n            test_and_write_vectors=test_and_write_vectors,\n"
+      "            renew_leases=True,\n        )", None),
+    # ---- C24.12 the up-front size check admits nothing that the container refuses
+    M("container-limit-on-lease-offset", MUT, CCS_CHECK,
+      "        old_extra_lease_offset = self._read_extra_lease_offset(f)\n"
+      "        new_extra_lease_offset = self.DATA_OFFSET + new_container_size\n"
+      "        if new_extra_lease_offset > self.MAX_SIZE:\n"
+      "            raise DataTooLargeError()\n", "C24.12",
+      note="seeded C24-F: writes ending in the last 468 bytes below MAX_SIZE pass the up-front check and are refused after "
+           "earlier shares were modified"),
+    M("container-size-passed-with-header", MUT, "                self._change_container_size(f, offset+length)\n",
+      "                self._change_container_size(f, self.DATA_OFFSET+offset+length)\n", "C24.12",
+      note="same effect one call up: the limit is compared with the end of the data region in the file"),
+    M("early-limit-includes-header", SRV, EARLY_TEST,
+      "                if offset + len(data) > MutableShareFile.MAX_SIZE + MutableShareFile.DATA_OFFSET:\n", "C24.12",
+      note="same disagreement produced on the other side"),
+    M("container-limit-inclusive", MUT, "        if new_container_size > self.MAX_SIZE:\n", "        if new_container_size >= self.MAX_SIZE:\n", "C24.12",
+      note="a write ending exactly at MAX_SIZE passes the up-front check and is refused by the container"),
+    M("write-time-limit-on-stored-length", MUT, "        if offset+length >= data_length:\n            # They are expanding their data size.\n",
+      "        if data_length + length > self.MAX_SIZE:\n            raise DataTooLargeError()\n"
+      "        if offset+length >= data_length:\n            # They are expanding their data size.\n", "C24.12",
+      note="a write-time refusal that depends on the share's state cannot have been anticipated by the up-front check"),
+    M("benign-container-limit-negated-and-named", MUT, "        if new_container_size > self.MAX_SIZE:\n",
+      "        limit = self.MAX_SIZE\n        if not new_container_size <= limit:\n", None),
+    M("benign-container-limit-checked-in-write-step", MUT, "        if new_container_size > self.MAX_SIZE:\n            raise DataTooLargeError()\n", "", None,
+      edits=[(MUT, "        length = len(data)\n        precondition(offset >= 0)\n",
+              "        length = len(data)\n        precondition(offset >= 0)\n        end = offset + length\n"
+              "        if end > MutableShareFile.MAX_SIZE:\n            raise DataTooLargeError()\n")],
+      note="the same limit enforced one call earlier in the write step"),
+    M("benign-early-limit-module-constant", SRV, EARLY_TEST, "                if offset + len(data) > MAX_MUTABLE_SHARE_SIZE:\n", None,
+      note="the same number under its other name"),
+    M("benign-container-limit-looser", MUT, "        if new_container_size > self.MAX_SIZE:\n",
+      "        if new_container_size > self.MAX_SIZE + self.DATA_OFFSET:\n", None,
+      note="unreachable after the up-front check either way: nothing admitted is refused"),
     # ---- behaviour-preserving
     M("benign-verdict-renamed", SRV, "        testv_is_good = self._evaluate_test_vectors(", "        ok = self._evaluate_test_vectors(", None,
       edits=[(SRV, "        if testv_is_good:\n", "        if ok:\n"), (SRV, "        return (testv_is_good, read_data)", "        return (ok, read_data)")]),
